@@ -76,6 +76,20 @@ var c15Forms = []struct {
 	{"Comment", func(s *jen.Statement, t string) *jen.Statement { return s.Comment(t) }},
 	{"Commentf(%s)", func(s *jen.Statement, t string) *jen.Statement { return s.Commentf("%s", t) }},
 	{"Commentf(escaped)", func(s *jen.Statement, t string) *jen.Statement { return s.Commentf(strings.ReplaceAll(t, "%", "%%")) }},
+	// the arguments are a buffer, a Stringer and an argument slice the caller goes on using
+	{"Commentf(%s%v, reused buffers)", func(s *jen.Statement, t string) *jen.Statement {
+		buf := []byte(t[:len(t)/2])
+		sb := &strings.Builder{}
+		sb.WriteString(t[len(t)/2:])
+		args := []interface{}{buf, sb}
+		s.Commentf("%s%v", args...)
+		for i := range buf {
+			buf[i] = '#'
+		}
+		sb.WriteString(" */ late")
+		args[0], args[1] = "reused", 7
+		return s
+	}},
 }
 
 type c15Case struct {
@@ -487,6 +501,27 @@ func runC15(r *ev.Recorder) {
 			r.Violate(ev.Violation{Signature: "c15:file:" + problemKind(msg), What: desc + ": " + jh.Short(msg, 300), Case: ev.JSON(c15Case{Kind: "file", Heads: h, Pkgs: p, Desc: desc}), Detail: msg})
 		}
 	})
+	// long lines and foreign line endings in file-level comments: three lines, the middle one of
+	// length 10, 2^16-1, 2^16, 70000 (sizes at which line-oriented readers give up), ending in \n or \r\n
+	for _, n := range []int{10, 4095, 4096, 65535, 65536, 70000, 1 << 20} {
+		for _, nl := range []string{"\n", "\r\n"} {
+			for which := 0; which < 2; which++ {
+				text := "first line" + nl + strings.Repeat("x", n-6) + " tail" + fmt.Sprint(n%10) + nl + "last line"
+				h, p := []string{"a header"}, []string{"Package p."}
+				if which == 0 {
+					h = []string{text}
+				} else {
+					p = []string{text}
+				}
+				r.Eval(1)
+				desc := fmt.Sprintf("%s with three lines, the second %d bytes long, line ending %q", []string{"HeaderComment", "PackageComment"}[which], n, nl)
+				r.Distinct(desc)
+				if msg := c15FileLevel(h, p); msg != "" {
+					r.Violate(ev.Violation{Signature: "c15:file-long-lines:" + problemKind(jh.Short(msg, 40)), What: desc + ": " + jh.Short(msg, 300), Case: ev.JSON(c15Case{Kind: "program", Desc: desc}), Detail: jh.Short(msg, 2000)})
+				}
+			}
+		}
+	}
 	// the same File rendered, its settings changed, rendered again: every render must show the
 	// CURRENT canonical path and comments
 	{
